@@ -2,6 +2,9 @@ import Mdns.Driver.C16
 import Mdns.Driver.Wire
 import Mdns.Driver.Sim
 import Mdns.Driver.C11
+import Mdns.Driver.C08
+import Mdns.Driver.C18
+import Mdns.Driver.C19
 /-
   Line-protocol driver (`lean_exe mdnsmodel`).
   stdin: op lines, each followed by the implementation's observation line `= ...`.
@@ -12,12 +15,21 @@ open Mdns
 def splitToks (line : String) : List String :=
   (line.trimAscii.toString.splitOn " ").filter (· != "")
 
+def c08Ops : List String :=
+  ["rec-compare", "tiebreak", "probe-time", "name-change", "hostname-change", "check-name", "split-sub",
+   "escaped-labels"]
+
+def c18Ops : List String := ["if-match", "select", "resolve-addr", "select-at", "valid-ip", "addrs-on-intf"]
+
 def dispatchExec (op : String) (ts impl : List String) : Option String :=
   if op.startsWith "txt-" then Driver.C16.exec op ts impl
   else if op == "decode" then Driver.Wire.exec op ts
   else if op == "sim" then Driver.Sim.exec ts impl
   else if op == "sim2" then some "nomodel"
   else if Driver.C11.isOp op then Driver.C11.exec op ts
+  else if c08Ops.contains op then Driver.C08.exec op ts impl
+  else if c18Ops.contains op then Driver.C18.exec op ts
+  else if op == "backoff" then Driver.C19.exec op ts
   else none
 
 def dispatchMon (op : String) (ts impl : List String) : Option String :=
@@ -26,6 +38,9 @@ def dispatchMon (op : String) (ts impl : List String) : Option String :=
   else if op == "sim" then Driver.Sim.monitorOp ts impl
   else if op == "sim2" then Driver.Sim.monitorOp2 ts impl
   else if Driver.C11.isOp op then Driver.C11.monitor op ts impl
+  else if c08Ops.contains op then Driver.C08.monitor op ts impl
+  else if c18Ops.contains op then Driver.C18.monitor op ts impl
+  else if op == "backoff" then Driver.C19.monitor op ts impl
   else some "unknown-op"
 
 partial def loop (h : IO.FS.Stream) (out : IO.FS.Stream) (cur : Option (List String)) : IO Unit := do
